@@ -136,3 +136,9 @@ Definition rules_draw (strict : bool) (drop : bool) (rate : Z) : option unit :=
   if drop then Some tt
   else if (if strict then 0 <? rate else negb (rate =? 0)) then (if rate <=? 0 then None else Some tt)
   else Some tt.
+
+(* NewCollectorWorker: make(chan *types.Span, (size + workers - 1) / workers) with workers = max(WorkerCount, 1);
+   makechan panics for a negative size. [validated]: the metadata demands size >= 0 *)
+Definition queue_size_accepted (validated : bool) (size : Z) : bool := if validated then 0 <=? size else true.
+Definition worker_queue (size workers : Z) : option Z :=
+  let per := Z.quot (size + workers - 1) workers in if per <? 0 then None else Some per.
